@@ -435,6 +435,9 @@ func cmdRun(args []string) int {
 					data = getCase(p, f, corpus, current)
 				}
 				msg := panicLine(stderr.String())
+				if site := callSite("panic(\n" + stderr.String()); site != "" {
+					msg += " @" + site
+				}
 				o := &Outcome{Evals: 1, Tags: []string{"crash"}, Findings: []Finding{{Kind: "CRASH", Case: current,
 					What: "the implementation process died: " + msg, Impl: tail(stderr.String(), 1500), Input: data,
 					Signature: crashSignature(f.prop, msg, data)}}}
